@@ -3,6 +3,7 @@ package c09
 
 import (
 	"fmt"
+	"github.com/0chain/common/core/util/wmpt"
 	"testing"
 
 	"pgregory.net/rapid"
@@ -41,7 +42,7 @@ func run(rt *rapid.T) {
 	steps := gen.Uniform(rt, 5, 40, "steps")
 	collapsedBelow := false // a commit with a small collapse level happened
 	touchedAfterCollapse, reloaded, sameValueCollapsed, deleteAfterCollapse := false, false, false, false
-	observes := 0
+	observes, copies := 0, 0
 	for i := 0; i < steps; i++ {
 		k := gen.Pct(rt, "op")
 		clean := !m.Dirty
@@ -84,6 +85,34 @@ func run(rt *rapid.T) {
 				m.Rewrite(e)
 				readded = true
 			}
+		case k >= 64 && k < 66 && (clean || !withDB) && len(m.Model) > 0:
+			// someone speculates on a copy of the trie (copied root over the same storage): removals and updates there,
+			// hashes computed, never committed, thrown away - the original does not notice
+			lvl := gen.Pick(rt, []int{0, 1, 2, 64, 64}, "copylevel")
+			var cp *wmpt.WeightedMerkleTrie
+			if withDB {
+				cp = wmpt.New(m.T.CopyRoot(lvl), db)
+			} else {
+				cp = wmpt.New(m.T.CopyRoot(lvl), nil)
+			}
+			m.Logf("copy(%d):", lvl)
+			es := wmkit.Entries(m.Model)
+			for j := gen.Uniform(rt, 1, 4, "ncopyops"); j > 0; j-- {
+				e := gen.Pick(rt, es, "copykey")
+				if gen.Chance(rt, 60, "copydel") {
+					err := cp.Update(e.Key, nil, 0)
+					m.Logf("  copy del %x.. (%v)", e.Key[:2], err)
+				} else {
+					v := wmkit.GenValue(rt, 40, &counter, unique)
+					err := cp.Update(e.Key, v, wmkit.WeightOf(v))
+					m.Logf("  copy upd %x.. (%v)", e.Key[:2], err)
+				}
+				if gen.Chance(rt, 50, "copyroot") {
+					cp.Root()
+				}
+			}
+			copies++
+			m.Observe([]uint64{uint64(gen.Uniform(rt, 0, 1000, "blkc"))})
 		case k < 68:
 			key := gen.Pick(rt, pool, "absent")
 			if _, live := m.Model[string(key)]; !live {
@@ -136,6 +165,7 @@ func run(rt *rapid.T) {
 	add(reloaded, "reload")
 	add(readded, "delete-and-re-add-identical")
 	add(reverted, "back-to-an-earlier-value")
+	add(copies > 0, "speculation-on-a-copy-in-between")
 	add(len(es) == 0, "ends-empty")
 	add(len(es) == 1, "ends-single-entry")
 	ev.Case(m.History(), nt, cls...)
